@@ -242,7 +242,7 @@ func checkAccountSkip(c *core.Ctx, rule string) {
 			if len(b.Instrs) > 0 {
 				if r, ok := b.Instrs[len(b.Instrs)-1].(*ssa.Return); ok {
 					if !(f.nonce && f.multisig && f.balance) {
-						bad = c.PosStr(r.Pos())
+						bad = posOrEnd(c, r.Pos())
 						missing = nil
 						if !f.balance {
 							missing = append(missing, "an empty balance list")
